@@ -947,6 +947,8 @@ func (g *gen) crowd(s *Spec, hot []int, fs faultSet) {
 			}
 			if fam != nil && r.Chance(0.8) {
 				ops[i].M = fam[r.Intn(len(fam))]
+				ops[i].Scribble = false
+				ops[i].Reuse = ops[i].M == "AppendJSON" && r.Chance(0.4)
 				ops[i].CB = nil
 				if usesCallback(ops[i].M) {
 					ops[i].CB = &CB{}
@@ -1186,6 +1188,8 @@ func (g *gen) sweep(s *Spec, hot []int, fs faultSet) {
 			op.R = h
 			op.Path = append([]int(nil), path...)
 			op.Prefix, op.Cap = "", 0
+			op.Scribble = false
+			op.Reuse = op.M == "AppendJSON" && r.Chance(0.4)
 			if usesCallback(op.M) {
 				op.CB = &CB{} // plain visiting (an abandoned task would cut the sweep short)
 				if fs.cancel && r.Chance(0.2) {
